@@ -115,8 +115,11 @@ func (c *AdminOP) Run(input []byte) ([]byte, error) {
 	}
 	dlen := new(big.Int).SetBytes(input[:32]).Uint64()
 	offset := dlen + 32
-	if int(offset) > len(input) {
+	if offset < dlen || offset > uint64(len(input)) { // also when dlen+32 wraps around
 		offset = uint64(len(input))
+	}
+	if offset < 32+20 {
+		offset = 32 + 20
 	}
 	from := input[32:32+20]
 	data := input[32+20:offset]
